@@ -37,11 +37,14 @@ def scenarios(tier):
         n = wfgen.program_size(prog)
         for ai, res in enumerate(pick_assignments(prog, quick)):
             tag = ''.join(res[k][0] for k in sorted(res))
-            for sched in (('legacy',) if quick else ('legacy', 'default')):
+            for sched in (('legacy', 'default_mem') if (ai == 0 or not quick)
+                          else ('legacy',)):
                 scn = wfscn.ProgScenario(
                     '%s/%s/%s' % (name, tag, sched), prog, results=res,
                     check_prereq=True, scheduler=sched)
                 bound = None if (n <= 3 or not quick) else 2
+                if sched != 'legacy':
+                    bound = 2 if quick else 3
                 if quick and n >= 5 and ai >= 3 and 'nested' not in name:
                     continue
                 jobs.append((scn, bound, 40 if quick else 1200, 1, 'join',
@@ -67,7 +70,7 @@ def scenarios(tier):
 def main(tier):
     rep = common.Report(PROP, tier)
     jobs = scenarios(tier)
-    deadline = time.time() + (150 if tier == 'quick' else 3000)
+    deadline = time.time() + (200 if tier == 'quick' else 3000)
     res = common.parallel_map(common.explore_job,
                               [j[:4] for j in jobs], deadline=deadline)
     for klass in ('join', 'reverse'):
